@@ -28,11 +28,9 @@ E == <<>>                   \* the empty string
 Drop(s, n) == SubSeq(s, n + 1, Len(s))
 Take(s, n) == SubSeq(s, 1, n)
 
-\* index of the first occurrence of character c in s, 0 if none
-IndexOf(s, c) ==
-  IF \E i \in 1..Len(s) : s[i] = c
-  THEN CHOOSE i \in 1..Len(s) : s[i] = c /\ \A j \in 1..(i - 1) : s[j] # c
-  ELSE 0
+\* index of the first occurrence of character c in s, 0 if none  (SelectInSeq is linear; a CHOOSE with a nested
+\* quantifier is quadratic and takes minutes on the multi-kilobyte lines of the INI checks)
+IndexOf(s, c) == SelectInSeq(s, LAMBDA x : x = c)
 
 HasPrefix(s, p) == Len(p) <= Len(s) /\ Take(s, Len(p)) = p
 
@@ -40,26 +38,20 @@ HasPrefix(s, p) == Len(p) <= Len(s) /\ Take(s, Len(p)) = p
 InSeq(ss, x) == \E i \in 1..Len(ss) : ss[i] = x
 
 \* index of the last element of ss satisfying P, 0 if none
-LastIdx(ss, P(_)) ==
-  LET S == {i \in 1..Len(ss) : P(ss[i])} IN
-  IF S = {} THEN 0 ELSE CHOOSE i \in S : \A j \in S : j <= i
+LastIdx(ss, P(_)) == SelectLastInSeq(ss, P)
 
 \* index of the first element of ss satisfying P, 0 if none
-FirstIdx(ss, P(_)) ==
-  LET S == {i \in 1..Len(ss) : P(ss[i])} IN
-  IF S = {} THEN 0 ELSE CHOOSE i \in S : \A j \in S : j >= i
+FirstIdx(ss, P(_)) == SelectInSeq(ss, P)
 
 \* concatenate a sequence of strings with a separator
 Join(ss, sep) ==
   FoldLeft(LAMBDA acc, i : IF i = 1 THEN ss[i] ELSE acc \o sep \o ss[i], E, [i \in 1..Len(ss) |-> i])
 
-\* split s at every occurrence of the single character c
+\* split s at every occurrence of the single character c (as strings.Split: n separators give n + 1 pieces)
 Split(s, c) ==
-  LET r == FoldLeft(LAMBDA acc, ch :
-                      IF ch = c THEN [done |-> Append(acc.done, acc.cur), cur |-> E]
-                      ELSE [acc EXCEPT !.cur = Append(@, ch)],
-                    [done |-> <<>>, cur |-> E], s)
-  IN Append(r.done, r.cur)
+  LET pos == SelectSeq([i \in 1..Len(s) |-> i], LAMBDA i : s[i] = c)
+      n == Len(pos)
+  IN [k \in 1..(n + 1) |-> SubSeq(s, (IF k = 1 THEN 1 ELSE pos[k - 1] + 1), (IF k = n + 1 THEN Len(s) ELSE pos[k] - 1))]
 
 \* ASCII classes
 IsDigit(c) == c >= 48 /\ c <= 57
@@ -71,11 +63,10 @@ ToLower(s) == [i \in 1..Len(s) |-> ToLowerC(s[i])]
 \* Unicode white space as Go's unicode.IsSpace (Latin-1 part + the listed others)
 IsSpace(c) == c \in {9, 10, 11, 12, 13, 32, 133, 160, 5760, 8232, 8233, 8239, 8287, 12288}
               \/ (c >= 8192 /\ c <= 8202)
-RECURSIVE TrimLeft(_)
-TrimLeft(s) == IF s # E /\ IsSpace(s[1]) THEN TrimLeft(Tail(s)) ELSE s
-RECURSIVE TrimRight(_)
-TrimRight(s) == IF s # E /\ IsSpace(s[Len(s)]) THEN TrimRight(Take(s, Len(s) - 1)) ELSE s
-TrimSpace(s) == TrimRight(TrimLeft(s))
+TrimLeft(s) == LET a == SelectInSeq(s, LAMBDA x : ~IsSpace(x)) IN IF a = 0 THEN E ELSE SubSeq(s, a, Len(s))
+TrimRight(s) == LET b == SelectLastInSeq(s, LAMBDA x : ~IsSpace(x)) IN SubSeq(s, 1, b)
+TrimSpace(s) == LET a == SelectInSeq(s, LAMBDA x : ~IsSpace(x)) b == SelectLastInSeq(s, LAMBDA x : ~IsSpace(x)) IN
+                IF a = 0 THEN E ELSE SubSeq(s, a, b)
 
 \* lexicographic order on strings by code point
 RECURSIVE StrLess(_, _)
